@@ -204,9 +204,58 @@ def misc_laws(out):
     return n
 
 
+def wire_host(out):
+    """The Host header / HTTP/2 :authority actually written for every host form x port form, HTTP/1.1 and HTTP/2,
+    sync and async (the synthesised default is judged above; this is what reaches the server)."""
+    from .. import scen
+    from ..engine import Chooser
+    from ..seqworld import SeqWorld
+    n = 0
+    for sch, host, port, proto, variant in itertools.product(["http", "https"], HOSTS, [None, "80", "443", "8080"], ["h1", "h2"], ["sync", "async"]):
+        n += 1
+        ct = {("http", "h1"): "h11", ("http", "h2"): "h2pk", ("https", "h1"): "h11tls", ("https", "h2"): "h2alpn"}[(sch, proto)]
+        u = f"{sch}://{host}" + (f":{port}" if port is not None else "") + "/t/tok"
+        ref = reference(u.encode())
+        exp = host_header_expected(ref["host"], ref["port"], ref["scheme"])
+        topo = scen.Topology(scen.CONN_TYPES[ct])
+        w = SeqWorld(Chooser([]), topo.router, variant=variant)
+        w.env.fp = None
+        pool = scen.make_pool(ct, w.backend, variant)
+        res = []
+        if variant == "sync":
+            def prog():
+                try:
+                    r = pool.request("GET", u)
+                    res.append(("ok", r.status))
+                except Exception as e:
+                    res.append(("exc", f"{type(e).__name__}: {e}"))
+                pool.close()
+            w.run(sync_fn=prog)
+        else:
+            async def aprog():
+                try:
+                    r = await pool.request("GET", u)
+                    res.append(("ok", r.status))
+                except Exception as e:
+                    res.append(("exc", f"{type(e).__name__}: {e}"))
+                await pool.aclose()
+            w.run(async_fn=aprog)
+        if proto == "h1":
+            seen = [v for c in topo.all_h1_conns() for r in c.parser.requests for k, v in r.headers if k.lower() == b"host"]
+        else:
+            seen = [v for c in topo.all_h2_conns() for sid in c.order for k, v in c.streams[sid].headers if k in (b":authority", b"host")]
+        if res[:1] != [("ok", 200)] or seen != [exp]:
+            out.append({"oracle": "C19.wire-host", "message": f"{u} over {ct} ({variant}): result {res}, server saw Host/:authority {seen}, expected {[exp]}",
+                        "signature": {"harness": "wire-host", "kind": "wire-host", "proto": proto, "ipv6": host.startswith("[")},
+                        "case": {"wire": True}})
+    return n
+
+
 def replay_case(case):
     out = []
-    if "url" in case:
+    if "wire" in case:
+        wire_host(out)
+    elif "url" in case:
         u = case["url"]
         m = re.match(r"^([a-z]+)://([^/@]*@)?(\[[^\]]*\]|[^:/?#]*)(:(\d*))?([^?#]*)(\?([^#]*))?(#(.*))?$", u)
         parts = (m.group(1), m.group(2) or "", m.group(3), m.group(5) if m.group(4) else None, m.group(6), m.group(8) if m.group(7) else None,
@@ -232,15 +281,16 @@ def check(tier="quick", seed=0, workers=None, only=None):
             samples.append({"url": u, "reference": {k: (v.decode() if isinstance(v, bytes) else v) for k, v in reference(u.encode()).items()}})
     n_pairs = origin_pairs(out)
     n_misc = misc_laws(out)
+    n_wire = wire_host(out)
     cov = {
-        "evaluations": n + n_pairs + n_misc,
+        "evaluations": n + n_pairs + n_misc + n_wire,
         "distinct_nontrivial": len(classes),
         "rule": ("full product scheme x userinfo x host x port x path x query x fragment, each as str and as bytes, against the RFC 3986 "
-                 "appendix-B regular expression; plus all pairs of origins over 4 schemes x 3 hosts x 4 ports, non-ASCII rejection, header and "
+                 "appendix-B regular expression; Host / :authority as received by the simulated servers for every host form x port form on HTTP/1.1 and HTTP/2; plus all pairs of origins over 4 schemes x 3 hosts x 4 ports, non-ASCII rejection, header and "
                  "content-kind laws; non-trivial class = (scheme, userinfo?, host form, port form, params?, query?, fragment?)"),
         "samples": samples,
         "exhaustive": True,
-        "urls": n, "origin_pairs": n_pairs, "misc_cases": n_misc,
+        "urls": n, "origin_pairs": n_pairs, "misc_cases": n_misc, "wire_host_runs": n_wire,
     }
     return {"level": "exploration", "coverage": cov, "violations": out,
             "assumptions": ["reference = RFC 3986 appendix B regex + host lower-casing + bracket stripping for the connect host"]}
